@@ -11,7 +11,7 @@
 Not decided: cipher correctness, PTK derivation, handshake ordering (value level).  The CCMP block loop's offsets
 depend on a division/modulo and are reported as undecided, not as proven.
 """
-from vlib import facts, cfg, cond
+from vlib import facts, cfg, cond, formula
 from vlib.facts import strip
 from rules import _bounds
 
@@ -55,17 +55,57 @@ def run(db, rep, tier):
     rep.assumptions += ["OpenSSL primitives read/write exactly the documented block and digest sizes"]
 
 
-def integrity_compare_nodes(f, kind):
-    """nodes of the comparison(s) that constitute the integrity check"""
+_ICV = {}
+
+
+def icv_helper(db, callee):
+    """is `callee` a boolean helper that returns true only when four byte equalities against the bytes of one 32-bit value
+    (x & 0xff, x >> 8, x >> 16, x >> 24) all hold?  (the ICV comparison, extracted into a function)"""
+    key = (id(db), callee)
+    if key in _ICV:
+        return _ICV[key]
+    _ICV[key] = False
+    h = db.fn(callee) if callee else None
+    if h is None or not h.get("body") or (facts.tyi(h, h.get("ret")) or {}).get("k") != "bool":
+        return False
+    try:
+        atoms, table = formula.truth_table(h)
+    except facts.AnalysisBroken:
+        return False
+    shifts = {}
+    for a in atoms:
+        if " == " not in a:
+            continue
+        for sh, pat in ((8, ">> 8"), (16, ">> 16"), (24, ">> 24")):
+            if pat in a:
+                shifts[sh] = a
+        if ">>" not in a and ("& 255" in a or "& 0xff" in a.lower()):
+            shifts[0] = a
+    if len(shifts) < 4:
+        return False
+    idx = [atoms.index(shifts[k_]) for k_ in (0, 8, 16, 24)]
+    for vals, res in table.items():
+        if res is True and not all(vals[i] for i in idx):
+            return False
+        if all(vals[i] for i in idx) and len(atoms) == 4 and res is not True:
+            return False
+    _ICV[key] = True
+    return True
+
+
+def integrity_compare_nodes(f, kind, db=None):
+    """nodes of the comparison(s) that constitute the integrity check: (node, True when the node is TRUE on success)"""
     out = []
     for n in facts.fn_nodes(f):
         if kind == "crc":
-            # pload[size - k] != (crc >> s) & 0xff   chained with ||
-            if n["k"] == "BinaryOperator" and n["op"] == "!=" and "crc" in facts.expr_str(n):
-                out.append(n)
+            # pload[size - k] != (crc >> s) & 0xff   chained with ||   (or == chained with &&, or a helper doing that)
+            if n["k"] == "BinaryOperator" and n["op"] in ("!=", "==") and "crc" in facts.expr_str(n):
+                out.append((n, n["op"] == "=="))
+            elif n["k"] == "CallExpr" and db is not None and n.get("callee") and not n.get("ext") and icv_helper(db, n["callee"]):
+                out += [(n, True)] * 4
         else:
             if n["k"] == "CallExpr" and n.get("cname") == "equal" and "MIC" in facts.expr_str(n):
-                out.append(n)
+                out.append((n, True))
     return out
 
 
@@ -77,7 +117,7 @@ def r1(db, rep):
             continue
         f = fs[0]
         g = cfg.FnCFG(f)
-        cmp_nodes = integrity_compare_nodes(f, kind)
+        cmp_nodes = integrity_compare_nodes(f, kind, db)
         name = f["id"].split("(")[0].split("::")[-1]
         if (kind == "crc" and len(cmp_nodes) < 4) or (kind == "mic" and len(cmp_nodes) < 1):
             rep.violation("R1-integrity", "%s:check-present" % name, facts.loc(f),
@@ -92,18 +132,13 @@ def r1(db, rep):
         for i, r in enumerate(rets):
             gs = g.guards_at(g.pos(r))
             okc = 0
-            for c in cmp_nodes:
-                # the return must lie on the `equal` edge of every comparison: for `a != b` the false edge,
-                # for equal(...) the true edge
+            for c, true_on_success in cmp_nodes:
+                # the return must lie on the success edge of every comparison: for `a != b` the false edge,
+                # for `a == b`, equal(...) or the ICV helper the true edge
                 on = False
                 for (cn, pol, blk) in gs:
-                    for op, l, rr in cond.facts_of(f, cn, pol):
-                        if kind == "crc" and op == "==" and rr is not None and any(x is strip(c) or x is c for x in (0,)) is False:
-                            pass
                     if contains(cn, c):
-                        if kind == "crc" and (pol is False) != negated(cn, c):
-                            on = True
-                        if kind == "mic" and (pol is True) != negated(cn, c):
+                        if (pol is true_on_success) != negated(cn, c):
                             on = True
                 if on:
                     okc += 1
